@@ -8,7 +8,7 @@
 (*   - an Attribute token occurs only between a StartTag / StartTagPI      *)
 (*     token and its closing token;                                        *)
 (*   - if the input contains a NUL byte, the report that ends the token    *)
-(*     stream is an error whose Err() is not io.EOF;                       *)
+(*     stream is an error whose Err() is neither io.EOF nor nil;           *)
 (*   - the token stream does end with an error report (End is enabled only *)
 (*     after one: a caller is never left without an answer).               *)
 (* Generated well-formed documents (wf):                                   *)
@@ -92,10 +92,10 @@ Agree == /\ lrep = grep
          /\ srep.ok
          /\ srep.names = grep.names /\ srep.anames = grep.anames /\ NormAll(srep.avals) = grep.avals
 
-\* the error report: eof = (Err() = io.EOF)
-ErrRep(eof) ==
+\* the error report: eof = (Err() = io.EOF), none = (Err() = nil: an Error token without an error)
+ErrRep(eof, none) ==
     /\ ~ended
-    /\ (nul => ~eof)
+    /\ (nul => ~eof /\ ~none)
     /\ (wf => eof /\ RestOptional /\ Agree)
     /\ ended' = TRUE
     /\ UNCHANGED <<tag, cur, idx, lrep, wf, nul, exp, grep, srep>>
